@@ -5,14 +5,20 @@ PROP = "C03"
 
 
 def main():
-    return G.main(PROP, dict(verus_units=[("renumber_state", 6), ("simplify_remap", 17)],
+    return G.main(PROP, dict(verus_units=[("renumber_state", 6), ("simplify_remap", 17), ("add_dfa", 3)],
                              trusted=G.COMMON_TRUSTED + ["Verus unit renumber_state: assumed spec of [T]::binary_search; derive(Ord) on the one-field StateIdx orders by the field (axiom); "
                                                          "that CgCtx::new builds a strictly increasing inlined_states vector is an iterator chain and is NOT verified (precondition)",
                                                          "Verus unit simplify_remap (rule B1: three blocks of dfa/simplify.rs::simplify verified as function bodies under template-supplied headers): the loop "
                                                          "headers / the closure head themselves, the order-preserving iterator chains (into_state_indices = into_iter().enumerate(); "
                                                          "non_empty_states.into_iter().map().collect()) and the per-field mapping of the surviving states are NOT verified; assumed spec of "
-                                                         "[T]::binary_search_by (with comparator totality); derive(Ord) on StateIdx (axiom)"],
+                                                         "[T]::binary_search_by (with comparator totality); derive(Ord) on StateIdx (axiom)",
+                                                         "Verus unit add_dfa (real DFA::add_dfa, rules subst R7 R13 R14 R16): two R7 fragments trusted with assumed contracts (the by-value loop over the character map: "
+                                                         "same keys, targets shifted; the iterator chain over the predecessor set: no contract), assumed contract of RangeMap::map (same end points, values mapped); "
+                                                         "the precondition (targets of `other` lie inside `other`, no usize overflow) is not verified at the caller in lib.rs"],
                              assumptions=G.COMMON_ASSUMPTIONS + [
                                  "proved for dfa/simplify.rs (unit simplify_remap): a state is removed only if it has no transition of any kind and is not a rule-set entry state; the removed list stays sorted; "
                                  "every rule-set entry index and every transition target to a surviving state is renumbered to index - (removed states below it), which is proved to be the number of surviving "
-                                 "states before it (lemma_renumbering_is_position, injective: lemma_renumbering_injective); a target that was removed becomes Accept with the removed state's list"]))
+                                 "states before it (lemma_renumbering_is_position, injective: lemma_renumbering_injective); a target that was removed becomes Accept with the removed state's list",
+                                 "proved for DFA::add_dfa (how a further rule set is placed): the states of the extension are appended in order after the existing ones, which are unchanged; the index returned - the one "
+                                 "lib.rs records as the rule set's entry - is exactly the position of the extension's state 0; every `_` / `$` / range / character target of the extension is moved up by exactly the old "
+                                 "number of states; flags and accepting lists are kept"]))
